@@ -27,6 +27,13 @@ NOTES = """Interpretation choices (read generously, see BUILDING.md rule 1):
   asserted. Tables() is read as header row + data rows with the same free translation as the Markdown table.
 * shared strings: the table may hold items nobody references, empty items <si/> (CT_Rst has no required child; a cell
   pointing at one shows nothing) and several rich-text items in any order relative to the cells.
+* histories (SheetHistory.tla): every history of <= 3 calls out of {Text, TextWithOptions(sheet selection incl. reordered,
+  headers, delimiter), Markdown, MarkdownWithOptions(selection), MarkdownWithRAGOptions(metadata, TOC), Document, Tables,
+  Sheet(i), SheetNames/SheetCount/PageCount} on ONE xlsx.Reader, and {Text, ToMarkdown, Document, PageCount} on ONE tabula
+  Extractor, over workbooks with stale covered values, several rich-text shared strings, an empty shared item, three
+  sheets and content away from A1. Each call must (b) return byte for byte what the same call returns on a freshly
+  opened object and (a) present the spec's cells for the selected sheets in the selected order. "=== name ===" header
+  lines of IncludeHeaders are not data lines.
 * ODT/DOCX/PPTX table spans are not part of C17's statement (spreadsheets only) and are not checked here.
 * generated files are valid ECMA-376: <row> without r (optional attribute) but cells with full
   references; rows and cells in any order (the schema does not order them); inline strings with
@@ -126,16 +133,16 @@ def run(ctx):
     ctx.tlc("SheetMC", "Sheet_mc_impl.cfg", expect_violation=True)
     # merged regions against the populated grid: every set of populated cells of a 3x3 window x every
     # rectangle (thorough: and every ordered pair of disjoint rectangles) as merged region
-    ctx.tlc("SheetMC", "Sheet_mc_merge_quick.cfg" if q else "Sheet_mc_merge.cfg", timeout=3000)
+    # (checked in the same run that emits those workbooks, see Sheet_gen_merge_*.cfg below)
     ctx.tlc("SheetMC", "Sheet_mc_impl_merge.cfg", expect_violation=True)
     ctx.exhaustive = True
     # ---- R2: cases ------------------------------------------------------------
     gen = ctx.tlc("SheetMC", "Sheet_gen_quick.cfg" if q else "Sheet_gen_thorough.cfg", workers=1 if q else 8,
                   collect=True, count=False, timeout=3000)
-    sim = ctx.tlc("SheetMC", "Sheet_sim.cfg", workers=1, simulate=250 if q else 8000, depth=12,
+    sim = ctx.tlc("SheetMC", "Sheet_sim.cfg", workers=1, simulate=150 if q else 8000, depth=12,
                   collect=True, count=False, timeout=3000)
     mg = ctx.tlc("SheetMC", "Sheet_gen_merge_quick.cfg" if q else "Sheet_gen_merge_thorough.cfg", workers=8,
-                 collect=True, count=False, timeout=3000)
+                 collect=True, timeout=3000)
     if not q:
         tall = ctx.tlc("SheetMC", "Sheet_gen_merge_tall.cfg", workers=8, collect=True, count=False, timeout=3000)
         mg["cases"] += tall["cases"]
@@ -183,7 +190,51 @@ def run(ctx):
         ctx.evaluations += r.get("evals", 0)
     ctx.extra["trace_events"] = len(events)
     _validate_segments(ctx, events)
+    _histories(ctx, q)
     ctx.notes.append(NOTES)
+
+
+def _histories(ctx, q):
+    """Purity of rendering (SheetHistory.tla): histories of calls on ONE xlsx.Reader / one tabula Extractor."""
+    gen = ctx.tlc("SheetHistoryMC", "SheetHistory_mc_quick.cfg" if q else "SheetHistory_mc_thorough.cfg", workers=8,
+                  collect=True, timeout=1800)
+    ctx.tlc("SheetHistoryMC", "SheetHistory_mc_impl.cfg", workers=1, expect_violation=True)
+    books = {c["id"]: c["book"] for c in gen["cases"] if c.get("kind") == "book"}
+    cases = []
+    for c in gen["cases"]:
+        if c.get("kind") == "history":
+            c["book"] = books[c.pop("bookid")]
+            cases.append(c)
+    if not cases:
+        raise vlib.MachineryError("SheetHistoryMC emitted no histories")
+    ctx.extra["histories"] = len(cases)
+    c0 = cases[len(cases) // 2]
+    ctx.sample({"history_on_one_" + c0["rd"]: [[c["op"], c["sel"], c["view"]] for c in c0["calls"]]})
+    absorb(ctx, ctx.run_driver(["c17", "history"], cases), label="hist")
+    reqs = [{"n": 4, "cells": 10, "calls": 6 if q else 10, "salt": i} for i in range(8 if q else 60)]
+    rec = ctx.run_driver(["c17", "histrecord"], reqs)
+    events = []
+    for r in rec:
+        ctx.evaluations += r.get("evals", 0)
+        events += r.get("events") or []
+    if not events:
+        raise vlib.MachineryError("history record driver logged no events")
+    ctx.extra["history_trace_events"] = len(events)
+    tv = ctx.validate_trace("SheetHistoryTrace", "SheetHistoryTrace.cfg", events)
+    if tv["accepted"]:
+        ctx.traces_validated += sum(1 for e in events if e["event"] == "Open")
+        return
+    line = tv["depth"]
+    ev = events[line - 1] if 0 < line <= len(events) else None
+    if not ev or ev["event"] == "Open":
+        raise vlib.MachineryError("SheetHistoryTrace rejects event %d (%s): the history generator wrote an invalid workbook"
+                                  % (line, vlib.json.dumps(ev)[:400]))
+    start = max(i for i in range(line) if events[i]["event"] == "Open")
+    before = [e.get("op") for e in events[start + 1:line - 1]]
+    ctx.violation("C17:history-trace:%s:%s" % (events[start].get("rd"), ev.get("op")),
+                  "SheetHistoryTrace rejects call %s on one %s after %s: the cells read back are not what a freshly opened reader presents: %s"
+                  % (ev.get("op"), events[start].get("rd"), before, vlib.json.dumps(ev)[:600]),
+                  {"trace_segment": events[start:line], "rejected_line": line})
 
 
 def replay(ctx, rp):
@@ -203,6 +254,8 @@ def replay(ctx, rp):
         print("not reproduced: the recorded request passes on the current tree")
         return 0
     cases = [r["case"] for r in [r0] + list(rp.get("more") or []) if isinstance(r, dict) and "case" in r]
+    if cases and cases[0].get("kind") == "history":
+        return replay_generic(ctx, rp, ["c17", "history"])
     if cases and "dir" in cases[0]:
         return replay_generic(ctx, rp, ["c17", "codec"])
     return replay_generic(ctx, rp, ["c17", "replay"])
